@@ -279,6 +279,8 @@ func c09Build(c *vk.Ctx, l c09Layout, v c09Variant) (*c09Built, bool) {
 
 type c09Stats struct{ evals, layouts, compared, unconstrained int64 }
 
+var c09Out vOutcomes
+
 func c09Run(c *vk.Ctx, l c09Layout, v c09Variant, st *c09Stats) bool {
 	if v.EP == "host-prednat" && v.Dir != "ingress" {
 		return true // pre-DNAT policy only applies to traffic from the host endpoint
@@ -352,7 +354,7 @@ func c09Run(c *vk.Ctx, l c09Layout, v c09Variant, st *c09Stats) bool {
 				// end-of-tier clause) are what the statement fixes for them.
 				constrained = constrained && (want.Reason == refpol.ByPolicyRule || (v.EP == "host-forward" && want.Reason == refpol.ByEndOfTier))
 			}
-			c.Outcome(fmt.Sprintf("%s/%s/ref=%s:%s/got=%s/constrained=%v", v.EP, v.Dir, want.Decision, want.Reason, got, constrained))
+			c09Out.add(c, fmt.Sprintf("%s/%s/ref=%s:%s/got=%s/constrained=%v", v.EP, v.Dir, want.Decision, want.Reason, got, constrained))
 			if !constrained {
 				st.unconstrained++
 				continue
@@ -361,7 +363,7 @@ func c09Run(c *vk.Ctx, l c09Layout, v c09Variant, st *c09Stats) bool {
 			if got == want.Decision.String() {
 				if v.EP == "host-untracked" && got == "allow" && !res.NoTrack {
 					// not part of the statement; recorded only
-					c.Outcome("host-untracked/allow-without-notrack")
+					c09Out.add(c, "host-untracked/allow-without-notrack")
 				}
 				continue
 			}
@@ -636,6 +638,7 @@ func TestVerif_C09(t *testing.T) {
 		c.Add("transitions", total.evals)
 		c.Add("verdicts_compared", total.compared)
 		c.Add("verdicts_unconstrained", total.unconstrained)
+		c09Out.publish(c)
 		fmt.Printf("INFO C09 layouts=%d renderings=%d packets=%d compared=%d unconstrained=%d\n", len(jobs), total.layouts, total.evals, total.compared, total.unconstrained)
 	})
 }
